@@ -167,7 +167,123 @@ pub fn check_history(h: &History) -> Result<bool, String> {
     Ok(results >= 2 && long_pause)
 }
 
-fn run(ctx: &Ctx, _mode: &str) -> Report {
+/// End to end: ChannelSource -> group_by -> processing-time / session window -> collect_vec, fed
+/// with real pauses; the same timing-independent oracle on what the sink collects.
+fn e2e_case(ctx: &Ctx, h: &History, n: u64) -> Result<bool, String> {
+    use crate::obs::JobCtx;
+    use crate::run::{run_job, AddrSeed, BuildFn, HostOutcome, JobOutcome, Layout, Watchdog};
+    use renoir::operator::source::ChannelSource;
+    use std::sync::Arc;
+    let layout = Layout::Local(1 + (n % 4));
+    let h2 = h.clone();
+    let build: BuildFn<Option<Vec<(u8, Vec<i64>)>>> = Arc::new(move |env, _| {
+        let (tx, src) = ChannelSource::<(u8, i64)>::new(16);
+        let size = Duration::from_micros(h2.size_us as u64);
+        let slide = Duration::from_micros(h2.slide_us as u64);
+        let keyed = env
+            .stream(src)
+            .batch_mode(renoir::BatchMode::adaptive(8, Duration::from_millis(1)))
+            .group_by(|x: &(u8, i64)| x.0)
+            .map(|(_, x): (&u8, (u8, i64))| x.1);
+        let out = match h2.kind {
+            0 => keyed.window::<i64, _>(ProcessingTimeWindow::tumbling(size)).map(|v: Vec<i64>| v).collect_vec(),
+            1 => keyed.window::<i64, _>(ProcessingTimeWindow::sliding(size, slide)).map(|v: Vec<i64>| v).collect_vec(),
+            _ => keyed.window::<i64, _>(SessionWindow::new(size)).map(|v: Vec<i64>| v).collect_vec(),
+        };
+        let ops = h2.ops.clone();
+        std::thread::spawn(move || {
+            for op in ops {
+                match op {
+                    Op::Elem(k, id, pause) => {
+                        sleep_us(pause);
+                        if tx.send((k, id)).is_err() {
+                            return;
+                        }
+                    }
+                    // a single iteration end to end: the first marker closes the source
+                    Op::Flush(pause) => {
+                        sleep_us(pause);
+                        break;
+                    }
+                }
+            }
+            drop(tx);
+        });
+        Box::new(move || out.get())
+    });
+    let jctx = JobCtx::new(None);
+    let hosts = match run_job(&layout, AddrSeed { shard: ctx.shard, job: n }, jctx, build, Watchdog::default()) {
+        JobOutcome::Finished(h) => h,
+        JobOutcome::Deadlock(d) => return Err(format!("deadlock: {}", d.diagnosis)),
+        JobOutcome::Inconclusive(m) => return Err(format!("inconclusive: {m}")),
+    };
+    let mut results: Vec<(u8, Vec<i64>)> = Vec::new();
+    for (i, o) in hosts.into_iter().enumerate() {
+        match o {
+            HostOutcome::Done(Some(v)) => results.extend(v),
+            HostOutcome::Done(None) => {}
+            HostOutcome::Panicked(m) => return Err(format!("host {i} panicked: {m}")),
+        }
+    }
+    // the elements of the first iteration, per key, in feed order
+    let mut input: BTreeMap<u8, Vec<i64>> = BTreeMap::new();
+    for op in &h.ops {
+        match op {
+            Op::Elem(k, id, _) => input.entry(*k).or_default().push(*id),
+            Op::Flush(_) => break,
+        }
+    }
+    let cover_max = ((h.size_us + h.slide_us - 1) / h.slide_us) as usize;
+    let mut per_key: BTreeMap<u8, Vec<Vec<i64>>> = BTreeMap::new();
+    for (k, r) in results {
+        if r.is_empty() {
+            return Err(format!("end to end: empty window result for key {k}"));
+        }
+        per_key.entry(k).or_default().push(r);
+    }
+    for (k, ins) in &input {
+        let rs = per_key.remove(k).unwrap_or_default();
+        if h.kind == 1 {
+            for id in ins {
+                let c = rs.iter().filter(|r| r.contains(id)).count();
+                if c == 0 || c > cover_max {
+                    return Err(format!("end to end, key {k}: element {id} is in {c} results (allowed 1..={cover_max})"));
+                }
+            }
+            if rs.iter().flatten().any(|id| !ins.contains(id)) {
+                return Err(format!("end to end, key {k}: a result contains a foreign element"));
+            }
+        } else {
+            let flat: Vec<i64> = rs.iter().flatten().copied().collect();
+            if &flat != ins {
+                return Err(format!("end to end, key {k}: the results {rs:?} are not a partition, in arrival order, of {ins:?}"));
+            }
+        }
+    }
+    if let Some((k, _)) = per_key.iter().next() {
+        return Err(format!("end to end: results for key {k}, which received no element"));
+    }
+    Ok(input.values().map(|v| v.len()).sum::<usize>() >= 3)
+}
+
+fn run(ctx: &Ctx, mode: &str) -> Report {
+    if mode == "e2e" {
+        let mut report = Report::default();
+        let counter = std::cell::Cell::new(0u64);
+        search(ctx, 2, ctx.cases(96, 3000), 10..90, &mut report, |choices, rep, _| {
+            let h = decode(choices);
+            let n = counter.get();
+            counter.set(n + 1);
+            match e2e_case(ctx, &h, n) {
+                Ok(nt) => {
+                    rep.class("end_to_end_jobs");
+                    Case::Pass { nontrivial: if nt { Some(fingerprint(&h)) } else { None } }
+                }
+                Err(message) => Case::Fail { message, replay: json!({"property": "C14", "history": h, "e2e": true}) },
+            }
+        });
+        return report;
+    }
     let mut report = Report::default();
     search(ctx, 1, ctx.cases(480, 12000), 10..90, &mut report, |choices, rep, _| {
         let h = decode(choices);
@@ -187,8 +303,14 @@ fn run(ctx: &Ctx, _mode: &str) -> Report {
     report
 }
 
-fn replay(_ctx: &Ctx, v: &Value) -> Result<String, String> {
+fn replay(ctx: &Ctx, v: &Value) -> Result<String, String> {
     let h: History = serde_json::from_value(v["history"].clone()).map_err(|e| e.to_string())?;
+    if v.get("e2e").is_some() {
+        for i in 0..10 {
+            e2e_case(ctx, &h, 70_000 + i)?;
+        }
+        return Ok("10 end-to-end runs conserved the elements".into());
+    }
     for _ in 0..20 {
         check_history(&h)?;
     }
@@ -199,9 +321,9 @@ pub fn def() -> CheckDef {
     CheckDef {
         id: "C14",
         level: "exploration",
-        rule: "timed histories: window size / gap 1-5 ms, 1-3 keys, up to 40 elements and end-of-iteration markers separated by real pauses drawn from {0, size/3, size +- 50 us, 3 x size}, fed to ProcessingTimeWindowManager (tumbling, sliding) and SessionWindowManager through the public window API as the keyed window operator does; timing-independent oracle: tumbling and session results are a partition of each key's elements in arrival order with no empty result, sliding covers each element 1..ceil(size/slide) times, everything pending is emitted at the end of the iteration, nothing crosses keys or iterations; non-trivial = >= 2 results and a pause longer than the window; distinct = hash of the history",
+        rule: "timed histories: window size / gap 1-5 ms, 1-3 keys, up to 40 elements and end-of-iteration markers separated by real pauses drawn from {0, size/3, size +- 50 us, 3 x size}, fed to ProcessingTimeWindowManager (tumbling, sliding) and SessionWindowManager through the public window API as the keyed window operator does; timing-independent oracle: tumbling and session results are a partition of each key's elements in arrival order with no empty result, sliding covers each element 1..ceil(size/slide) times, everything pending is emitted at the end of the iteration, nothing crosses keys or iterations; a second mode feeds the first iteration of such a history through ChannelSource -> group_by -> window -> collect_vec on 1-4 replicas and applies the same oracle to what the sink collected; non-trivial = >= 2 results and a pause longer than the window; distinct = hash of the history",
         assumptions: &["'exactly at a boundary' is approached statistically (pauses of size +- 50 us); the wall clock is the real one"],
-        modes: |t| vec![("main", t.pick(12, 16))],
+        modes: |t| vec![("main", t.pick(12, 16)), ("e2e", t.pick(4, 8))],
         run,
         replay,
     }
